@@ -126,6 +126,8 @@ def build_and_run(case, d, poison):
     else:
         dyadic_pyramid.fill_scales_for_dyadic_pyramid(
             info, target_chunk_size=target)
+    if case.get("via_cli") and case.get("select") == "auto":
+        info["type"] = case["info_type"]
     ds = os.path.join(d, "ds%d" % poison)
     os.makedirs(ds)
     opts = {"flat": case["storage"] == "flat",
@@ -155,6 +157,28 @@ def build_and_run(case, d, poison):
         ds_obj = used = downscaling.get_downscaler(case["method"],
                                                    options=opt)
     exc = None
+    if case.get("via_cli"):
+        # the console script: options parsed from a command line and
+        # forwarded by main() (the exit handlers run inside run_cli)
+        argv = []
+        if case["storage"] == "flat":
+            argv += ["--flat", "--no-gzip"]
+        if case.get("select") != "auto":
+            argv += ["--downscaling-method", case["method"]]
+        if case["outside"] is not None:
+            argv += ["--outside-value", repr(case["outside"])]
+        argv = argv + [ds] if case["via_cli"] == 1 else [ds] + argv
+        with Poison(poison), np.errstate(all="ignore"):
+            r = sandbox.run_cli("compute_scales", argv)
+        if r.status != 0 or r.exit_errors:
+            return info, None, r.exc or RuntimeError(
+                "exit status %r %r" % (r.status, r.exit_errors)), ds_obj
+        try:
+            rd = pipeline.open_dataset(ds, opts)
+            return info, [pipeline.read_scale(rd, i)
+                          for i in range(len(info["scales"]))], None, ds_obj
+        except Exception as e:
+            return info, None, Unreadable(repr(e)[:200]), ds_obj
     with Poison(poison), np.errstate(all="ignore"):
         try:
             dyadic_pyramid.compute_dyadic_scales(pio, used)
@@ -387,6 +411,30 @@ def method_cases(tier):
                             "select": "auto", "info_type": typ,
                             "dtype": "uint8", "channels": 1,
                             "encoding": "raw", "storage": "deep"})
+    # through the compute_scales console script: every method / outside
+    # value, the method left to "auto" for both info types, three storages
+    n = 0
+    for gi in (0, 2, 6, 8):
+        size, res, target = GEOMS[gi]
+        sel = [(m, o, None, None) for m, o in METHODS] + [
+            ("average", o, "auto", "image") for o in (None, 0.0, 255.0)] + [
+            ("stride", o, "auto", "segmentation") for o in (None, 0.0)]
+        for method, outside, select, typ in sel:
+            for st in ("deep", "flat", "sharded"):
+                if st == "sharded" and len(set(res)) != 1:
+                    continue
+                n += 1
+                if tier == "quick" and n % 3:
+                    continue
+                c = {"kind": "method", "size": list(size),
+                     "resolution": list(res), "target": target,
+                     "method": method, "outside": outside,
+                     "dtype": "uint8" if n % 2 else "uint16", "channels": 1,
+                     "encoding": "raw", "storage": st,
+                     "via_cli": 1 + n % 2}
+                if select:
+                    c.update(select=select, info_type=typ)
+                out.append(c)
     return out
 
 
